@@ -13,7 +13,7 @@ DEFAULT = dict(
     nb=(1, 3), p_parallel=0.2, maxh=[50, 50, 50, None, 2, 3, 4], p_timeout=0.0, p_forward=0.12, p_sync=0.2,
     nh=(1, 6), proglen=(0, 5), ntasks=(1, 2), tasklen=(1, 6), p_wild=0.15, p_raise=0.05, p_readbus=0.04,
     p_redispatch=0.03, p_multikey=0.05, wild_dispatch=False, p_waitidle=0.1, p_parent=0.03, p_wal=0.0,
-    p_stop=0.0, p_expect=0.0, p_cancelrl=0.0, p_notimeout=0.1, p_walfault=0.0, p_payload=0.0, p_cleanup=0.15, p_samenames=0.0, p_dupnames=0.15, p_retry=0.1, p_late=0.12, par_timeouts=False,
+    p_stop=0.0, p_expect=0.0, p_cancelrl=0.0, p_notimeout=0.1, p_walfault=0.0, p_payload=0.0, p_cleanup=0.15, p_samenames=0.0, p_dupnames=0.15, p_retry=0.1, p_late=0.12, p_existing=0.0, par_timeouts=False,
 )
 
 PAYLOADS = [
@@ -57,6 +57,8 @@ def gen_prog(rng, o, ty, nb, kind):
             prog.append(['readbus'])
         elif r < 0.88 + o['p_readbus'] + o['p_redispatch'] and nslots:
             prog.append(['redispatch', rng.randrange(nslots), rng.randrange(nb)])
+        elif o['p_existing'] and 0.88 + o['p_readbus'] + o['p_redispatch'] <= r < 0.88 + o['p_readbus'] + o['p_redispatch'] + o['p_existing']:
+            prog.append(['dispatch_existing', rng.choice([0, 0, 1, 2]), rng.randrange(nb)])
         elif r > 1 - o['p_raise']:
             # (one raise in five is a CancelledError the handler lets escape from a cancelled helper task it awaits)
             prog.append(['raise_cancelled'] if rng.random() < 0.2 else ['raise'])
